@@ -587,11 +587,11 @@ func (x *exec) zeroValue(u Unit, e *entry, t *T) {
 	var r common.Root
 	var ok bool
 	if p := guard(func() { r, ok = z.root() }); p != "" {
-		x.viol("C05", "zero-value-root-panics/"+u.Type, fmt.Sprintf("%s (%s): the zero value serializes as the default value, but its HashTreeRoot panics: %s", u.Type, x.presetName(), p))
+		x.viol("C05", "zero-value-root-panics/"+u.Type, fmt.Sprintf("%s (%s): the zero value denotes the default value, but its HashTreeRoot panics: %s", u.Type, x.presetName(), p))
 		return
 	}
 	if ok && r != common.Root(want) {
-		x.viol("C05", "zero-value-root/"+u.Type, fmt.Sprintf("%s (%s): the zero value serializes as the default value (%d bytes), but its struct HashTreeRoot is %s and the default value's root by the specification's schema is %x", u.Type, x.presetName(), len(def), r, want))
+		x.viol("C05", "zero-value-root/"+u.Type, fmt.Sprintf("%s (%s): the zero value denotes the default value (%d bytes encoded), but its struct HashTreeRoot is %s and the default value's root by the specification's schema is %x", u.Type, x.presetName(), len(def), r, want))
 		return
 	}
 	if bl, has := z.byteLength(); sameBytes && has && bl != uint64(len(def)) {
